@@ -25,6 +25,7 @@ class Lang:
         self.classes: Dict[str, List[str]] = {}
         self.notes: List[str] = []
         self.consts: Dict[str, ast.AST] = {}  # package / module level constants
+        self.super_targets: Dict[str, Dict[int, ast.FunctionDef]] = {}  # class -> id(super().m() call) -> implementation
 
     def func(self, key: str) -> ast.FunctionDef:
         if "." in key:
@@ -52,6 +53,8 @@ class Lang:
                 self_names = tuple(sorted(firsts | set(self_names)))
         if self.consts:
             kw.setdefault("consts", self.consts)
+        if cls and cls in self.super_targets:
+            kw.setdefault("super_targets", self.super_targets[cls])
         return PyFlow(funcs=self.funcs, methods=methods, classes=self.classes, primitives=primitives, self_names=self_names, **kw)
 
 
@@ -59,13 +62,44 @@ def py_runtime(repo: Repo) -> Lang:
     def build() -> Lang:
         rel = "lib/py/bitprotolib/bp.py"
         tree = ast.parse(repo.src(rel))
+        from .core import link_parents
+
+        link_parents(tree)
         L = Lang("py", rel)
         L.funcs = module_funcs(tree)
         L.classes = dataclass_fields(tree)
         seen: Dict[str, int] = {}
+        own: Dict[str, Dict[str, ast.FunctionDef]] = {n.name: class_methods(n) for n in tree.body if isinstance(n, ast.ClassDef)}
+        bases: Dict[str, List[str]] = {n.name: [b.id for b in n.bases if isinstance(b, ast.Name) and b.id in own] for n in tree.body if isinstance(n, ast.ClassDef)}
+
+        def mro_of(c: str, seen_: Tuple[str, ...] = ()) -> List[str]:
+            out_ = [c]
+            for b in bases.get(c, []):
+                if b not in seen_:
+                    for x in mro_of(b, seen_ + (c,)):
+                        if x not in out_:
+                            out_.append(x)
+            return out_
+
+        for cname in own:
+            chain = mro_of(cname)
+            merged: Dict[str, ast.FunctionDef] = {}
+            for k in chain:
+                for mn, fn_ in own[k].items():
+                    merged.setdefault(mn, fn_)
+            L.methods[cname] = merged
+            # super().m(...) inside a method of class k (k in the chain) reaches the next definition after k
+            for i_, k in enumerate(chain):
+                for fn_ in own[k].values():
+                    for c_ in ast.walk(fn_):
+                        if isinstance(c_, ast.Call) and isinstance(c_.func, ast.Attribute) and isinstance(c_.func.value, ast.Call) and isinstance(c_.func.value.func, ast.Name) and c_.func.value.func.id == "super":
+                            for k2 in chain[i_ + 1 :]:
+                                if c_.func.attr in own[k2]:
+                                    L.super_targets.setdefault(cname, {})[id(c_)] = own[k2][c_.func.attr]
+                                    break
         for n in tree.body:
             if isinstance(n, ast.ClassDef):
-                L.methods[n.name] = class_methods(n)
+                pass
             tg = None
             if isinstance(n, ast.Assign) and len(n.targets) == 1 and isinstance(n.targets[0], ast.Name):
                 tg, val = n.targets[0].id, n.value
